@@ -1493,6 +1493,101 @@ class Runner:
             self.mg_nontrivial.add(hashlib.sha1(repr((sorted(classes), [sp["kind"] for sp in st["hrefs"]], self.world.prefix, fe)).encode()).hexdigest())
         return set()
 
+
+    # -- C14: validity and fixed point ------------------------------------------------
+    def commit_count(self, coll):
+        rc, out, err = self.git(self.world.fs_path(coll), "rev-list", "--count", "HEAD")
+        return int(out.strip()) if rc == 0 else 0
+
+    def op_C14(self, st):
+        coll = SLOTS[st["coll"]]
+        name = st["name"]
+        body = body_of(st)
+        fe = st["fe"]
+        mc = self.model.colls.get(coll)
+        self.last = {"op": "C14", "ack": False, "coll": coll, "name": name}
+        if mc is None:
+            return set()
+        path = self.member_path(coll, name)
+        is_cal = name.endswith(".ics")
+        root = "VCALENDAR" if is_cal else "VCARD"
+        tag0 = self.read_tags(coll, fe)[P_CTAG]
+        n0 = self.commit_count(coll)
+        before = mc.members.get(name)
+        r = self.req(fe, "PUT", path, [("Content-Type", st["ctype"])], body)
+        ack = dav.acknowledged(r)
+        desc = f"PUT {coll}/{name} via {fe} ({st.get('klass')})"
+        if st["valid"]:
+            # may legitimately be refused for a UID conflict only
+            if not ack:
+                if b"no-uid-conflict" in r.body:
+                    self.stats["c14:uid-conflict"] += 1
+                    return {coll}
+                self.violation("valid", "valid-body-refused", f"{desc}: a well-formed body was refused with {r.status} {r.exc or r.body[:300]!r}; body {body[:400]!r}")
+            mc.members[name] = MMember(body, st["ctype"], (before.ver + 1) if before else 1)
+            self.coll_writes[coll] += 1
+            self.last["ack"] = True
+            self.stats["ack:PUT"] += 1
+            etag1 = r.header("ETag")
+            g = self.req(fe, "GET", path, None, None)
+            if g.status != 200:
+                self.violation("valid", "stored-not-served", f"{desc}: acknowledged but GET answers {g.status}")
+            served = g.body
+            try:
+                tree = icalref.parse_one(served, root)
+            except icalref.ParseError as e:
+                self.violation("valid", "served-unparseable", f"{desc}: the served bytes do not parse as one {root}: {e}; served {served[:300]!r}")
+            if is_cal:
+                if tree.canon() != icalref.parse_one(body, root).canon():
+                    self.violation("valid", "served-differs", f"{desc}: served object is not property-for-property identical; sent {body[:300]!r} served {served[:300]!r}")
+            elif served != body:
+                self.violation("valid", "served-differs", f"{desc}: vCard not served byte-identically")
+            if mc.kind in ("calendar", "addressbook") and name.endswith(".ics" if mc.kind == "calendar" else ".vcf"):
+                ans = self.mg_request(fe, coll, mc.kind, [self.world.url(path)])
+                a = (ans.get(urllib.parse.unquote(self.world.url(path))) or [None])[0]
+                if a is None or a["data"] is None or a["data"].encode("utf-8").replace(b"\r\n", b"\n") != served.replace(b"\r\n", b"\n"):
+                    self.violation("valid", "multiget-differs", f"{desc}: multiget data differs from GET")
+            tag1 = self.read_tags(coll, fe)[P_CTAG]
+            n1 = self.commit_count(coll)
+            # upload again what the server serves
+            r2 = self.req(fe, "PUT", path, [("Content-Type", st["ctype"])], served)
+            if not dav.acknowledged(r2):
+                self.violation("fixpoint", "reupload-refused", f"{desc}: re-uploading the served bytes was refused with {r2.status} {r2.exc or r2.body[:200]!r}")
+            mc.members[name] = MMember(served, st["ctype"], mc.members[name].ver + 1)
+            g2 = self.req(fe, "GET", path, None, None)
+            tag2 = self.read_tags(coll, fe)[P_CTAG]
+            n2 = self.commit_count(coll)
+            if r2.header("ETag") != etag1 or g2.header("ETag") != etag1:
+                self.violation("fixpoint", "etag-changed", f"{desc}: re-upload of the served bytes changed the ETag {etag1} -> {r2.header('ETag')} / {g2.header('ETag')}; served {served[:300]!r} now {g2.body[:300]!r}")
+            if g2.body != served:
+                self.violation("fixpoint", "bytes-changed", f"{desc}: re-upload of the served bytes changed the served bytes")
+            if tag2 != tag1:
+                self.violation("fixpoint", "ctag-changed", f"{desc}: re-upload of the served bytes changed the collection tag {tag1} -> {tag2}")
+            if n2 != n1:
+                self.violation("fixpoint", "new-commit", f"{desc}: re-upload of the served bytes added {n2 - n1} commit(s)")
+            self.stats["c14:valid"] += 1
+            if served != body:
+                self.stats["c14:normalised"] += 1
+                self.c14_keys = getattr(self, "c14_keys", set())
+                self.c14_keys.add(hashlib.sha1(body).hexdigest())
+        else:
+            if ack:
+                self.violation("valid", f"invalid-body-accepted:{st.get('klass')}", f"{desc}: an invalid body was acknowledged with {r.status}; body {body[:300]!r}")
+            g = self.req(fe, "GET", path, None, None)
+            if before is None:
+                if g.status != 404:
+                    self.violation("valid", "invalid-body-stored", f"{desc}: refused, but GET answers {g.status}")
+            elif g.status != 200 or not same_body(before.raw, g.body, name, before):
+                self.violation("valid", "invalid-body-damaged-previous", f"{desc}: refused, but the previous content is no longer served ({g.status})")
+            tag1 = self.read_tags(coll, fe)[P_CTAG]
+            n1 = self.commit_count(coll)
+            if tag1 != tag0 or n1 != n0:
+                self.violation("valid", "refused-upload-changed-collection", f"{desc}: refused, but tag {tag0}->{tag1}, commits {n0}->{n1}")
+            self.stats["c14:invalid:" + str(st.get("klass"))] += 1
+            self.c14_keys = getattr(self, "c14_keys", set())
+            self.c14_keys.add("inv:" + hashlib.sha1(body).hexdigest())
+        return {coll}
+
     # -- the content audit (C01 oracle) ---------------------------------------
     LIST_PROPS = [P_ETAG, P_RT]
 
